@@ -32,6 +32,10 @@ WORKLOADS = {
     "timer_unsafe": ("w_timer.cpp", ()),
     "mutex_v1": ("w_mutex.cpp", ()),
     "mutex_v2": ("w_mutex.cpp", ()),
+    "event_v1": ("w_event.cpp", ()),
+    "event_v2": ("w_event.cpp", ()),
+    "event_auto": ("w_event.cpp", ()),
+    "pass": ("w_event.cpp", ()),
 }
 
 PROPS = {
@@ -115,6 +119,30 @@ PROPS = {
                     "debug and C++20 NDEBUG configurations (v2 needs C++20)."),
         real=["unifex::v1::async_mutex + atomic_intrusive_queue", "unifex::v2::async_mutex + atomic_intrusive_list + cancellable + completion_forwarder",
               "manual_event_loop/single_thread_context, inline_scheduler", "inplace_stop_source"],
+        stub=["pthread layer, heap (usim)"],
+    ),
+    "C16": dict(
+        title="Events and async_pass: every waiter woken once, atomic rendezvous",
+        batches=[
+            B("w_event.cpp", "event_v2", quick=8, thorough=120, oracles=["c16."] + RT_ALL),
+            B("w_event.cpp", "event_v1", quick=5, thorough=90, oracles=["c16."] + RT_ALL),
+            B("w_event.cpp", "event_auto", quick=5, thorough=60, oracles=["c16."] + RT_ALL),
+            B("w_event.cpp", "pass", quick=8, thorough=120, oracles=["c16."] + RT_ALL),
+            B("w_event.cpp", "event_v1", cfg="S17r", quick=4, thorough=45, oracles=["c16."] + RT_ALL),
+        ],
+        level_text=("Seeded exploration over the real v1/v2 async_manual_reset_event (1-5 waiters on their own threads, 1-2 setter threads "
+                    "running scripts of set/reset/ready, cancellable v2 waits stopped before start or by a racing stopper, a final set() after "
+                    "which late waits must complete without further help), the async_auto_reset_event stream (sequential next() against a "
+                    "setter and a stopper) and nothrow_async_pass<long> (one caller and one acceptor thread doing async_call / try_call / "
+                    "async_accept / try_accept rounds with unique payloads and racing stop requests). Oracles: every wait completes exactly "
+                    "once and is never stranded (deadlock detection), a value completion is justified by a set() that could reach it (reset "
+                    "rule), auto-reset delivers at most one element per set() and stays done, each value-completed call's payload is received "
+                    "by exactly one accept in order and the pass ends idle, value completions arrive on the waiter's scheduler thread, op "
+                    "states are freed right after completion (shadow memory)."),
+        level_note=("Trusted: usim stubs; sequential consistency. async_throw and the throwing async_pass variant are not driven; only one "
+                    "pending caller and one pending acceptor at a time (the API's contract)."),
+        real=["v1/v2 async_manual_reset_event", "async_auto_reset_event (+let_value_with_stop_token, let_value_with, just_void_or_done)",
+              "async_pass (nothrow_async_pass<long>) + cancellable + completion_forwarder", "atomic_intrusive_list", "single_thread_context, inline_scheduler"],
         stub=["pthread layer, heap (usim)"],
     ),
 }
